@@ -81,6 +81,20 @@ mut("c15_skip_bound_off_by_one", BD, "                    if square_skip_count +
 mut("c15_castling_q_means_both", BD, "            black_queen_side_castle: castling_privileges.find('q') != None,", "            black_queen_side_castle: castling_privileges.to_lowercase().find('q') != None,", ["C15"])
 mut("c15_halfmove_u16", BD, "        let half_move_clock = fen_config[4].parse::<u32>();", "        let half_move_clock = fen_config[4].parse::<u16>();", [])  # 65535 halfmoves is not a valid counter: must NOT alarm
 
+
+# ---- benign refactors: the properties still hold, no check may alarm (and every one must still build under the harness)
+ZB = "src/zobrist.rs"
+mut("benign_zobrist_seed_changed", ZB, "seed_from_u64(6 * 10 * 1837)", "seed_from_u64(20261004)", [])
+mut("benign_stable_sort", EN, "moves.sort_unstable_by_key(|k| Reverse(k.order_heuristic));\n    for mov in moves {", "moves.sort_by_key(|k| Reverse(k.order_heuristic));\n    for mov in moves {", [])
+mut("benign_poll_every_500us", UCI, "            thread::sleep(Duration::from_millis(1));\n        }\n    }\n    let board = best_move.unwrap();", "            thread::sleep(Duration::from_micros(500));\n        }\n    }\n    let board = best_move.unwrap();", [])
+mut("benign_drain_channel_each_poll", UCI, "        if let Ok(b) = rx.try_recv() {\n            best_move = Some(b);\n        } else {", "        let mut got = false;\n        while let Ok(b) = rx.try_recv() {\n            best_move = Some(b);\n            got = true;\n        }\n        if !got {", [])
+mut("benign_null_move_none", UCI, "        send_to_gui(\"bestmove 0000\");", "        send_to_gui(\"bestmove (none)\");", [])
+mut("benign_draw_table_btreemap", DT, "use std::collections::HashMap;", "use std::collections::BTreeMap as HashMap;", [])
+mut("benign_recv_timeout_poll", UCI, "        if let Ok(b) = rx.try_recv() {\n            best_move = Some(b);\n        } else {\n            thread::sleep(Duration::from_millis(1));\n        }", "        if let Ok(b) = rx.recv_timeout(Duration::from_millis(1)) {\n            best_move = Some(b);\n        }", [])
+mut("benign_deadline_arithmetic", "src/utils.rs", "    Instant::now().duration_since(start).as_millis() >= time_to_move_ms", "    match u64::try_from(time_to_move_ms) {\n        Ok(ms) => Instant::now() >= start + std::time::Duration::from_millis(ms),\n        Err(_) => false,\n    }", [])
+mut("benign_generation_order_by_file", MG, "    for i in BOARD_START..BOARD_END {\n        for j in BOARD_START..BOARD_END {\n            if let Square::Full(piece) = board.board[i][j] {\n                if piece.color == board.to_move {\n                    generate_moves_for_piece(", "    for j in BOARD_START..BOARD_END {\n        for i in BOARD_START..BOARD_END {\n            if let Square::Full(piece) = board.board[i][j] {\n                if piece.color == board.to_move {\n                    generate_moves_for_piece(", [])
+# benign_println_via_write (writeln!(io::stdout(), ..) + the Write import) is kept as a hand-made patch: it edits two sites
+
 def main():
     os.makedirs(OUT, exist_ok=True)
     for f in os.listdir(OUT):
